@@ -9,7 +9,7 @@ RETIRED = {"C15-1": "retired: needs invalid UTF-8 in a result text, impossible s
 NOTES = {"C18-6": " (the agent's demonstration relied on scripts that fix c25c758 now refuses; the defect is still caught through refused scripts)"}
 rows = {}
 for line in open(log):
-    m = re.match(r"^(C\d\d-\d) confirmed=(\w+) (.*)$", line.strip())
+    m = re.match(r"^(C\d\d-\d+) confirmed=(\w+) (.*)$", line.strip())
     if not m:
         continue
     sid, conf, rest = m.groups()
@@ -18,7 +18,7 @@ for line in open(log):
     rows[sid] = (conf, caught, other)
 print("| Seeded change | What it does | Caught by (quick tier) | Strengthening that was needed |")
 print("|---|---|---|---|")
-for sid in sorted(rows):
+for sid in sorted(rows, key=lambda x: (x.split("-")[0], int(x.split("-")[1]))):
     conf, caught, other = rows[sid]
     c = ", ".join(caught) if caught else "**not caught in this sweep** (%s)" % " ".join(other)
     c += NOTES.get(sid, "")
